@@ -29,6 +29,7 @@ def parseOp (toks : List String) : Option Op :=
   | ["dvget", k, o, le] => do some (.dvGet (← parseKind k) (← o.toNat?) (le == "1"))
   | ["dvset", k, o, le, x] => do some (.dvSet (← parseKind k) (← o.toNat?) (le == "1") (← parseVal x))
   | ["detach"] => some .detach
+  | ["copy", d, sv, o] => do some (.copy (← d.toNat?) (← sv.toNat?) (← o.toNat?))
   | _ => none
 
 def step' (s : St) (toks : List String) : St × String :=
